@@ -474,6 +474,57 @@ impl Gen for Skipping {
     }
 }
 
+// ---- every serde case rule that yields Avro-legal names, on field names with digits and runs of capitals
+macro_rules! cased {
+    ($t:ident, $rule:literal) => {
+        #[derive(Debug, Serialize, Deserialize, AvroSchema, Clone, PartialEq)]
+        #[serde(rename_all = $rule)]
+        pub struct $t {
+            plain: i32,
+            two_words: String,
+            with_2_digits: i64,
+            x: bool,
+            trailing_: i32,
+        }
+        impl Gen for $t {
+            fn gen_value(r: &mut Rng, _d: u32) -> Self {
+                $t { plain: r.i64() as i32, two_words: r.string(), with_2_digits: r.i64(), x: r.below(2) == 1, trailing_: r.i64() as i32 }
+            }
+        }
+    };
+}
+cased!(CasePascal, "PascalCase");
+cased!(CaseLower, "lowercase");
+cased!(CaseUpper, "UPPERCASE");
+cased!(CaseSnake, "snake_case");
+cased!(CaseScreaming, "SCREAMING_SNAKE_CASE");
+cased!(CaseCamel, "camelCase");
+
+#[derive(Debug, Serialize, Deserialize, AvroSchema, Clone, PartialEq)]
+#[serde(rename_all = "lowercase")]
+pub enum LowerUnits {
+    FirstOne,
+    HTTPServer,
+    X2,
+}
+impl Gen for LowerUnits {
+    fn gen_value(r: &mut Rng, _d: u32) -> Self {
+        [LowerUnits::FirstOne, LowerUnits::HTTPServer, LowerUnits::X2][r.below(3) as usize].clone()
+    }
+}
+#[derive(Debug, Serialize, Deserialize, AvroSchema, Clone, PartialEq)]
+#[serde(rename_all = "snake_case")]
+pub enum SnakeUnits {
+    FirstOne,
+    HTTPServer,
+    X2,
+}
+impl Gen for SnakeUnits {
+    fn gen_value(r: &mut Rng, _d: u32) -> Self {
+        [SnakeUnits::FirstOne, SnakeUnits::HTTPServer, SnakeUnits::X2][r.below(3) as usize].clone()
+    }
+}
+
 // ---- serde rename rules on enums: a container-wide rule for the fields of struct variants, overridden by a
 // variant's own rule; renamed variants
 #[derive(Debug, Serialize, Deserialize, AvroSchema, Clone, PartialEq)]
@@ -843,6 +894,14 @@ pub fn serde_case(a: &[Sexp]) -> Sexp {
         "pair" => run_type::<(Inner, Suit)>(seed, bs),
         "array3" => run_type::<[Single; 3]>(seed, bs),
         "one-tuple-int" => run_type::<(i32,)>(seed, bs),
+        "case-pascal" => run_type::<CasePascal>(seed, bs),
+        "case-lower" => run_type::<CaseLower>(seed, bs),
+        "case-upper" => run_type::<CaseUpper>(seed, bs),
+        "case-snake" => run_type::<CaseSnake>(seed, bs),
+        "case-screaming" => run_type::<CaseScreaming>(seed, bs),
+        "case-camel" => run_type::<CaseCamel>(seed, bs),
+        "lower-units" => run_type::<LowerUnits>(seed, bs),
+        "snake-units" => run_type::<SnakeUnits>(seed, bs),
         "skipping" => run_type::<Skipping>(seed, bs),
         "many" => run_type::<Many>(seed, bs),
         "with-many" => run_type::<WithMany>(seed, bs),
